@@ -28,6 +28,8 @@ func Alphabet(name string) []Msg {
 		return SmallAlphabet()
 	case "tiny":
 		return TinyAlphabet()
+	case "c16":
+		return ConvAlphabet()
 	}
 	panic("unknown alphabet " + name)
 }
@@ -77,6 +79,14 @@ func Build(cfg Cfg, al []Msg, ops []Op) *Inst {
 // accumulates states / transitions / depth in ctx ("states", "transitions",
 // "max:depth", and the same per plan).
 func RunPlanCfg(ctx *engine.Ctx, p Plan, cfg Cfg, check CheckFn) {
+	RunPlanCfgShard(ctx, p, cfg, -1, check)
+}
+
+// RunPlanCfgShard explores only the histories whose first operation is
+// firstOp (all of them if firstOp < 0). The shards of one (plan, cfg) partition
+// the histories; the state reached by the first operation alone is evaluated
+// by the shard that owns it.
+func RunPlanCfgShard(ctx *engine.Ctx, p Plan, cfg Cfg, firstOp int, check CheckFn) {
 	al := Alphabet(p.AlName)
 	ops := p.Ops()
 	b := &engine.BFS{NumOps: len(ops)}
@@ -131,7 +141,27 @@ func RunPlanCfg(ctx *engine.Ctx, p Plan, cfg Cfg, check CheckFn) {
 			emit(uint16(oi), key)
 		}
 	}
+	if firstOp >= 0 {
+		// evaluate the one-operation history itself, then continue below it
+		root := NewInst(cfg, al)
+		if !enabled(&root.M, ops[firstOp]) {
+			return
+		}
+		var got bool
+		b.Expand([]uint16{}, func(op uint16, key string) {
+			if int(op) == firstOp {
+				got = true
+			}
+		})
+		if !got {
+			return
+		}
+		b.Start = [][]uint16{{uint16(firstOp)}}
+	}
 	b.Explore("init")
+	if firstOp >= 0 {
+		b.Depth++
+	}
 	ctx.Add("states", b.States)
 	ctx.Add("transitions", b.Transitions)
 	ctx.Add("plan:"+p.Name+":states", b.States)
